@@ -1134,6 +1134,17 @@ static JanetFile *get_stdio_for_handle(JanetHandle handle, void *orig, int iswri
 }
 #endif
 
+/* A redirection given as a core/file is turned into a stream on a duplicate of its descriptor (event-loop
+ * builds). That stream is the process object's own, like the ends of a :pipe: os/proc-close closes it. */
+static int janet_proc_made_stream_for(void *orig) {
+#ifdef JANET_EV
+    return orig != NULL && janet_abstract_type(orig) == &janet_file_type;
+#else
+    (void) orig;
+    return 0;
+#endif
+}
+
 typedef enum {
     JANET_EXECUTE_EXECUTE,
     JANET_EXECUTE_SPAWN,
@@ -1442,14 +1453,17 @@ static Janet os_execute_impl(int32_t argc, Janet *argv, JanetExecuteMode mode) {
         if (new_in != JANET_HANDLE_NONE) {
             proc->in = get_stdio_for_handle(new_in, orig_in, 1);
             if (NULL == proc->in) janet_panic("failed to construct proc");
+            if (janet_proc_made_stream_for(orig_in)) proc->flags |= JANET_PROC_OWNS_STDIN;
         }
         if (new_out != JANET_HANDLE_NONE) {
             proc->out = get_stdio_for_handle(new_out, orig_out, 0);
             if (NULL == proc->out) janet_panic("failed to construct proc");
+            if (janet_proc_made_stream_for(orig_out)) proc->flags |= JANET_PROC_OWNS_STDOUT;
         }
         if (new_err != JANET_HANDLE_NONE) {
             proc->err = get_stdio_for_handle(new_err, orig_err, 0);
             if (NULL == proc->err) janet_panic("failed to construct proc");
+            if (janet_proc_made_stream_for(orig_err)) proc->flags |= JANET_PROC_OWNS_STDERR;
         }
         return janet_wrap_abstract(proc);
     } else {
